@@ -1,0 +1,6 @@
+//go:build !verif && !windows
+
+package daemon
+
+// verifPause marks a schedule point for runtime monitors built with the 'verif' tag.
+func verifPause(string) {}
